@@ -1532,6 +1532,10 @@ class Exec:
             return self._unrolled(n, s, it.elts, fr)
         body0 = s.fork()
         body0.trace = []
+        # what the path did BEFORE the loop (an exception handler that completed normally: flag "partial") is not an
+        # effect of the loop body: the body is judged on the events and flags it adds itself.  (The state `s`, from
+        # which every continuation after the loop is forked, keeps its own flags.)
+        body0.flags = set()
         # Scoping: the loop becomes a comprehension that BINDS the loop variable.  A pending value in which the same
         # name occurs free (a parameter or an unknown local of that name -- names bound by a comprehension or lambda
         # inside the value are not free) would be captured by that binder: the loop variable is alpha-renamed then.
